@@ -2,7 +2,6 @@ package main
 
 import (
 	"fmt"
-	"go/ast"
 	"go/token"
 	"go/types"
 	"strings"
@@ -158,51 +157,160 @@ func sinkLabel(call *ssa.Call) string {
 func (c *Check) callgrindRules() {
 	p := c.P
 	pc := c.anchorFn("C18-R2", "internal/report", "printCallgrind")
-	cn := c.anchorFn("C18-R2", "internal/report", "callgrindName")
-	if pc == nil || cn == nil {
+	if pc == nil {
 		return
 	}
-	fd, ok := pc.Syntax().(*ast.FuncDecl)
-	if !ok {
-		c.undecided("C18-R2", "syntax", "", "printCallgrind has no syntax")
-		return
-	}
-	tables := map[string]string{}
-	bad := false
-	ast.Inspect(fd.Body, func(n ast.Node) bool {
-		call, ok := n.(*ast.CallExpr)
-		if !ok || !strings.HasPrefix(exprStr(p.Fset, call.Fun), "fmt.Fprint") {
-			return true
+	// the name compressor: the function of the package that formats "(%d) %s" definitions
+	var cn *ssa.Function
+	forAllPkgFuncs(p, "internal/report", func(f *ssa.Function) {
+		for _, b := range f.Blocks {
+			for _, ins := range b.Instrs {
+				if call, ok := ins.(*ssa.Call); ok && call.Call.StaticCallee() != nil && call.Call.StaticCallee().String() == "fmt.Sprintf" {
+					if format, ok := constString(call.Call.Args[0]); ok && format == "(%d) %s" {
+						cn = f
+					}
+				}
+			}
 		}
-		for _, a := range call.Args[1:] {
-			be, ok := a.(*ast.BinaryExpr)
-			if !ok || be.Op != token.ADD {
-				continue
-			}
-			lit, ok := be.X.(*ast.BasicLit)
-			if !ok || lit.Kind != token.STRING || !strings.HasSuffix(strings.Trim(lit.Value, "\"`"), "=") {
-				continue
-			}
-			prefix := strings.Trim(lit.Value, "\"`")
-			key := "payload:" + prefix
-			inner, ok := be.Y.(*ast.CallExpr)
-			if !ok || exprStr(p.Fset, inner.Fun) != "callgrindName" || len(inner.Args) != 2 {
-				c.bad("C18-R2", key, p.relFile(call.Pos()), "callgrind line "+prefix+" does not take its payload from callgrindName(table, name)")
-				bad = true
-				continue
-			}
-			tbl := exprStr(p.Fset, inner.Args[0])
-			if prev, ok := tables[prefix]; ok && prev != tbl {
-				c.bad("C18-R2", key, p.relFile(call.Pos()), "callgrind lines "+prefix+" use different compression tables ("+prev+", "+tbl+")")
-				bad = true
-				continue
-			}
-			tables[prefix] = tbl
-			c.ok("C18-R2", key, p.relFile(call.Pos()), "callgrind line "+prefix+"…", "payload is callgrindName("+tbl+", …)")
-		}
-		return true
 	})
-	_ = bad
+	if cn == nil {
+		c.undecided("C18-R2", "anchor:internal/report.callgrindName", "", "the callgrind name compressor (a function formatting \"(%d) %s\") was not found in package report")
+		return
+	}
+	// its table and name parameters
+	var names, name *ssa.Parameter
+	for _, pr := range cn.Params {
+		switch t := pr.Type().Underlying().(type) {
+		case *types.Map:
+			names = pr
+		case *types.Basic:
+			if t.Kind() == types.String {
+				name = pr
+			}
+		}
+	}
+	if names == nil || name == nil {
+		c.undecided("C18-R2", "name:shape", p.relFile(cn.Pos()), "the callgrind name compressor does not take a table and a name")
+		return
+	}
+	tblIdx := 0
+	for i, pr := range cn.Params {
+		if pr == names {
+			tblIdx = i
+		}
+	}
+	// tableOrigin: the make(map) in printCallgrind that a table value denotes, followed through
+	// conversions, struct fields, and parameters of printCallgrind's helpers
+	var tableOrigin func(v ssa.Value, depth int) ssa.Value
+	tableOrigin = func(v ssa.Value, depth int) ssa.Value {
+		if depth > 6 {
+			return nil
+		}
+		one := func(vals []ssa.Value, ok bool) ssa.Value {
+			if !ok || len(vals) == 0 {
+				return nil
+			}
+			var res ssa.Value
+			for _, e := range vals {
+				o := tableOrigin(e, depth+1)
+				if o == nil || (res != nil && res != o) {
+					return nil
+				}
+				res = o
+			}
+			return res
+		}
+		switch x := v.(type) {
+		case *ssa.MakeMap:
+			return x
+		case *ssa.ChangeType:
+			return tableOrigin(x.X, depth+1)
+		case *ssa.Convert:
+			return tableOrigin(x.X, depth+1)
+		case *ssa.Field:
+			return one(structFieldValues(p, x.X, x.Field, 0))
+		case *ssa.UnOp:
+			if x.Op != token.MUL {
+				return nil
+			}
+			if fa, ok := x.X.(*ssa.FieldAddr); ok {
+				switch base := fa.X.(type) {
+				case *ssa.Alloc:
+					return one(structFieldValues(p, &ssa.UnOp{Op: token.MUL, X: base}, fa.Field, 0))
+				case *ssa.Parameter:
+					return one(structFieldValues(p, base, fa.Field, 0))
+				}
+			}
+			if vals, ok := cellValues(x.X); ok {
+				return one(vals, true)
+			}
+		case *ssa.Parameter:
+			fn := x.Parent()
+			calls, asValue := directCallSites(p, fn)
+			if asValue || len(calls) == 0 {
+				return nil
+			}
+			for i, q := range fn.Params {
+				if q != x {
+					continue
+				}
+				var args []ssa.Value
+				for _, call := range calls {
+					if i >= len(call.Common().Args) {
+						return nil
+					}
+					args = append(args, call.Common().Args[i])
+				}
+				return one(args, true)
+			}
+		}
+		return nil
+	}
+	tables := map[string]ssa.Value{}
+	tblName := func(v ssa.Value) string {
+		if mk, ok := v.(*ssa.MakeMap); ok {
+			return "the map made at " + p.relFile(mk.Pos())
+		}
+		return "?"
+	}
+	for _, blk := range helperBlocks(pc, 2) {
+		for _, ins := range blk.Instrs {
+			call, ok := ins.(*ssa.Call)
+			if !ok || call.Call.StaticCallee() == nil || !strings.HasPrefix(call.Call.StaticCallee().String(), "fmt.Fprint") {
+				continue
+			}
+			for _, a := range variadicValues(call.Call.Args[len(call.Call.Args)-1]) {
+				if a == nil {
+					continue
+				}
+				be, ok := a.(*ssa.BinOp)
+				if !ok || be.Op != token.ADD {
+					continue
+				}
+				prefix, ok := constString(be.X)
+				if !ok || !strings.HasSuffix(prefix, "=") {
+					continue
+				}
+				key := "payload:" + prefix
+				inner, ok := be.Y.(*ssa.Call)
+				if !ok || inner.Call.StaticCallee() != cn || tblIdx >= len(inner.Call.Args) {
+					c.bad("C18-R2", key, p.relFile(call.Pos()), "callgrind line "+prefix+" does not take its payload from the name compressor "+fnName(cn)+"(table, name)")
+					continue
+				}
+				tbl := tableOrigin(inner.Call.Args[tblIdx], 0)
+				if tbl == nil {
+					c.undecided("C18-R2", key, p.relFile(call.Pos()), "the compression table used for callgrind line "+prefix+" could not be traced to a map made in printCallgrind")
+					continue
+				}
+				if prev, ok := tables[prefix]; ok && prev != tbl {
+					c.bad("C18-R2", key, p.relFile(call.Pos()), "callgrind lines "+prefix+" use different compression tables ("+tblName(prev)+", "+tblName(tbl)+")")
+					continue
+				}
+				tables[prefix] = tbl
+				c.ok("C18-R2", key, p.relFile(call.Pos()), "callgrind line "+prefix+"…", "payload is "+fnName(cn)+"("+tblName(tbl)+", …)")
+			}
+		}
+	}
 	pairs := [][2]string{{"fl=", "cfl="}, {"fn=", "cfn="}}
 	for _, pr := range pairs {
 		key := "table:" + pr[0] + pr[1]
@@ -212,26 +320,25 @@ func (c *Check) callgrindRules() {
 		case !okA || !okB:
 			c.undecided("C18-R2", key, "", "callgrind lines "+pr[0]+" / "+pr[1]+" not both found in printCallgrind")
 		case a != b:
-			c.bad("C18-R2", key, p.relFile(pc.Pos()), fmt.Sprintf("%s uses table %s but %s uses table %s: a '(n)' back-reference would resolve in the wrong name space", pr[0], a, pr[1], b))
+			c.bad("C18-R2", key, p.relFile(pc.Pos()), fmt.Sprintf("%s uses table %s but %s uses table %s: a '(n)' back-reference would resolve in the wrong name space", pr[0], tblName(a), pr[1], tblName(b)))
 		default:
-			c.ok("C18-R2", key, p.relFile(pc.Pos()), pr[0]+" and "+pr[1]+" share one compression table", "both use "+a)
+			c.ok("C18-R2", key, p.relFile(pc.Pos()), pr[0]+" and "+pr[1]+" share one compression table", "both use "+tblName(a))
 		}
 	}
-	distinct := map[string]string{}
+	distinct := map[ssa.Value]string{}
 	for _, pre := range []string{"ob=", "fl=", "fn="} {
 		if t, ok := tables[pre]; ok {
 			if other, dup := distinct[t]; dup {
-				c.bad("C18-R2", "table:distinct:"+pre, p.relFile(pc.Pos()), pre+" and "+other+" share table "+t+": ids of different name spaces would collide")
+				c.bad("C18-R2", "table:distinct:"+pre, p.relFile(pc.Pos()), pre+" and "+other+" share table "+tblName(t)+": ids of different name spaces would collide")
 			} else {
 				distinct[t] = pre
-				c.ok("C18-R2", "table:distinct:"+pre, p.relFile(pc.Pos()), pre+" has its own compression table", t)
+				c.ok("C18-R2", "table:distinct:"+pre, p.relFile(pc.Pos()), pre+" has its own compression table", tblName(t))
 			}
 		} else {
 			c.undecided("C18-R2", "table:distinct:"+pre, "", "callgrind line "+pre+" not found")
 		}
 	}
 	// callgrindName: "(n)" only on a hit; a new id is len(names)+1, recorded under the name, and printed with the name
-	names, name := cn.Params[0], cn.Params[1]
 	var upd *ssa.MapUpdate
 	var lookups []*ssa.Lookup
 	for _, b := range cn.Blocks {
